@@ -245,8 +245,11 @@ pub fn exec(plan: &Plan, _trials: &mut Trials) -> RunReport {
                             Ok(d) => d,
                             Err(e) => return vec![("C13", format!("after failed {what}: read failed: {e}"))],
                         };
-                        if d.normalised() != sh.model.dump().normalised() {
-                            return vec![("C13", format!("after failed {what}: state differs from the state before it"))];
+                        let (dn, mn) = (d.normalised(), sh.model.dump().normalised());
+                        if dn != mn {
+                            // a failed step left an effect: report it under the property the difference belongs to
+                            // (C08-C11 each state "fails without effect" for their own operations; C13 has its own check)
+                            return mn.diff(&dn, "model (state before the failed step)", "database").into_iter().map(|(t, m)| (t, format!("after failed {what}: {m}"))).collect();
                         }
                         for (id, kvs) in &d.values {
                             sh.model.props.insert(*id, kvs.clone());
